@@ -49,11 +49,11 @@ def list_def(node, xs):
     if name == 'pad_start':
         if not xs:
             return []
-        return [node[2] if node[2] is not None else xs[0]] * node[1] + list(xs)
+        return [progs.pad_value(node[2]) if node[2] is not None else xs[0]] * node[1] + list(xs)
     if name == 'pad_end':
         if not xs:
             return []
-        return list(xs) + [node[2] if node[2] is not None else xs[-1]] * node[1]
+        return list(xs) + [progs.pad_value(node[2]) if node[2] is not None else xs[-1]] * node[1]
     if name == 'start_with':
         if not xs:
             return []
@@ -113,6 +113,12 @@ def variants():
         for v in (None, 9):
             yield ['pad_start', n, v], mux
             yield ['pad_end', n, v], mux
+    # a padding value that happens to be callable (a converter / dtype / handler as the default of a stream of such): a value like
+    # any other, emitted as it is
+    for cv in ('str', 'len', 'function', 'partial'):
+        yield ['pad_start', 2, {'callable': cv}], mux
+        yield ['pad_end', 1, {'callable': cv}], mux
+    yield ['start_with', [{'callable': 'str'}, 7, {'callable': 'function'}]], mux
     yield ['start_with', [7]], mux
     yield ['start_with', [7, None, 8]], mux
     yield ['start_with', []], mux
@@ -147,7 +153,7 @@ class C10(Check):
                'rxsci/operators/distinct_until_changed.py', 'rxsci/data/lag.py', 'rxsci/data/pad.py', 'rxsci/operators/start_with.py',
                'rxsci/data/batch.py', 'rxsci/data/sort.py']
     REQUIRED_TAGS = ['first', 'last', 'take', 'distinct', 'duc', 'lag', 'pad_start', 'pad_end', 'start_with', 'batch', 'sort',
-                     'plain', 'mux', 'group', 'roll', 'split', 'scale', 'numpy-items', 'negative-values', 'empty', 'has-None', 'len-multiple-of-n', 'numpy-typed-parameters', 'two-store-sections'] + ['padding-as-' + k for k in ('tuple', 'range', 'deque', 'keys', 'nparray')] + PRELUDE_TAGS
+                     'plain', 'mux', 'group', 'roll', 'split', 'scale', 'numpy-items', 'negative-values', 'empty', 'has-None', 'len-multiple-of-n', 'numpy-typed-parameters', 'two-store-sections'] + ['padding-as-' + k for k in ('tuple', 'range', 'deque', 'keys', 'nparray')] + ['padding-value-that-is-callable'] + PRELUDE_TAGS
     REQUIRED_OBSERVED = ['sequences_compared', 'triples_of_staggered_subscriptions']
 
     def generate(self, rng, tier, shard, nshards):
@@ -218,6 +224,8 @@ class C10(Check):
         out.tags += [name, mode]
         if name == 'start_with' and len(node) > 2:
             out.tags.append('padding-as-' + node[2])
+        if (name in ('pad_start', 'pad_end') and isinstance(node[2], dict)) or (name == 'start_with' and any(isinstance(v, dict) for v in node[1])):
+            out.tags.append('padding-value-that-is-callable')
         if not seq:
             out.tags.append('empty')
         if None in seq:
@@ -304,7 +312,7 @@ class C10(Check):
         seqs = [seq] + [[(x if x is None else (x + g) % 3) for x in seq[g:] + seq[:g]][:r.randint(0, len(seq))] for g in range(1, ng)]
         pairs = gen.interleave_keys(r, seqs, r.choice(gen.INTERLEAVINGS))
         items = [(g, v) for g, v in pairs]
-        if name in ('pad_start', 'pad_end') and node[2] is not None:
+        if name in ('pad_start', 'pad_end') and node[2] is not None and not isinstance(node[2], dict):
             node = [name, node[1], ('pad', node[2])]
         head, tail = [], []
         op = self._op(node, case)
